@@ -2,7 +2,7 @@
    (nesting level counter, number of scopes, recursion limit) whenever the outcome is not a
    model panic / fuel exhaustion. *)
 From Molt Require Import Model.Base Model.Tokenizer Model.ListSyn Model.Float Model.Value
-  Model.State Model.Script Model.Parser Model.Eval Model.Expr Model.Commands Model.Unicode
+  Model.State Model.Script Model.Parser Model.Eval Model.Expr Model.Commands Model.Harness Model.Unicode
   Model.Interp.
 From Coq Require Import Lia ZifyBool ZifyN.
 
@@ -451,6 +451,91 @@ Proof.
   - apply pres_err_inv in P. intros _. eapply pop_push_ctl; eassumption.
 Qed.
 
+(* test_harness.rs: run_test pushes a scope around setup/body/cleanup and pops it *)
+Lemma swallow_pres {s0} (m : M value) : pres_M s0 m -> pres_M s0 (swallow m).
+Proof.
+  destruct m as [st [v|e|p|]]; unfold swallow, pres_M; cbn [fst snd]; intros P Hn.
+  - apply P. apply normal_ok.
+  - apply P. apply normal_err.
+  - destruct Hn as [A _]. exfalso. apply (A p). reflexivity.
+  - destruct Hn as [_ A]. exfalso. apply A. reflexivity.
+Qed.
+
+Lemma run_test_pres : forall s0 st info, ctl_eq s0 st -> pres_M s0 (run_test rec st info).
+Proof.
+  intros s0 st info H. unfold run_test.
+  pose proof (Heval (push_scope st) (push_scope st) (VStr (ti_setup info)) (ctl_eq_refl _)) as P1.
+  destruct (r_eval rec (push_scope st) (VStr (ti_setup info))) as [st2 r2].
+  assert (C2 : normal r2 -> ctl_eq (push_scope st) st2) by exact P1. clear P1.
+  assert (V : forall (A : Type) (x : interp) (p : str), pres_M s0 (x, @Panic A p)).
+  { intros A x p [N1 _]. exfalso. apply (N1 p). reflexivity. }
+  assert (W : forall (A : Type) (x : interp), pres_M s0 (x, @Fuel A)).
+  { intros A x [_ N2]. exfalso. apply N2. reflexivity. }
+  assert (body :
+    forall st2, ctl_eq (push_scope st) st2 ->
+    pres_M s0
+      match r_eval rec st2 (VStr (ti_body info)) with
+      | (st3, Panic p) => (st3, Panic p)
+      | (st3, Fuel) => (st3, Fuel)
+      | (st3, rbody) =>
+          bind (swallow (r_eval rec st3 (VStr (ti_cleanup info))))
+            (fun st4 _ =>
+             let st5 := pop_scope st4 in
+             let '(t, p, f, e) := i_test st5 in
+             let t0 := (t + 1)%N in
+             let verdict : N * N * N :=
+               match rbody, ti_code info with
+               | Ok out, TOk => if str_eqb (as_str out) (ti_expect info) then (1, 0, 0)%N else (0, 1, 0)%N
+               | Err ex, TError =>
+                   if rcode_eqb (x_code ex) CError then
+                     (if str_eqb (as_str (x_value ex)) (ti_expect info) then (1, 0, 0)%N else (0, 1, 0)%N)
+                   else (0, 0, 1)%N
+               | _, _ => (0, 0, 1)%N
+               end in
+             let '(dp, df, de) := verdict in
+             ret (set_test st5 (t0, (p + dp)%N, (f + df)%N, (e + de)%N)) tt)
+      end).
+  { intros st2' C. pose proof (Heval (push_scope st) st2' (VStr (ti_body info)) C) as Q.
+    destruct (r_eval rec st2' (VStr (ti_body info))) as [st3 rb].
+    assert (C3 : normal rb -> ctl_eq (push_scope st) st3) by exact Q. clear Q.
+    assert (fin : forall (nb : normal rb) (verdict : N * N * N),
+      pres_M s0 (bind (swallow (r_eval rec st3 (VStr (ti_cleanup info))))
+            (fun st4 _ =>
+             let st5 := pop_scope st4 in
+             let '(t, p, f, e) := i_test st5 in
+             let t0 := (t + 1)%N in
+             let '(dp, df, de) := verdict in
+             ret (set_test st5 (t0, (p + dp)%N, (f + df)%N, (e + de)%N)) tt))).
+    { intros nb verdict.
+      pose proof (Heval (push_scope st) st3 (VStr (ti_cleanup info)) (C3 nb)) as R.
+      destruct (r_eval rec st3 (VStr (ti_cleanup info))) as [st4 r4].
+      assert (C4 : normal r4 -> ctl_eq (push_scope st) st4) by exact R. clear R.
+      destruct r4 as [v4|e4|p4|]; cbn [swallow bind]; try apply V; try apply W.
+      - destruct (i_test (pop_scope st4)) as [[[t p] f] e]. destruct verdict as [[dp df] de].
+        intros _. cbn [fst ret]. apply ctl_set_test. eapply pop_push_ctl; [eassumption|].
+        apply C4. split; congruence.
+      - destruct (i_test (pop_scope st4)) as [[[t p] f] e]. destruct verdict as [[dp df] de].
+        intros _. cbn [fst ret]. apply ctl_set_test. eapply pop_push_ctl; [eassumption|].
+        apply C4. split; congruence. }
+    destruct rb as [vb|eb|pb|]; try apply V; try apply W.
+    - apply fin. split; congruence.
+    - apply fin. split; congruence. }
+  destruct r2 as [v2|e2|p2|]; cbn [swallow bind]; try apply V; try apply W.
+  - apply body. apply C2. split; congruence.
+  - apply body. apply C2. split; congruence.
+Qed.
+
+#[local] Hint Resolve run_test_pres : pres.
+
+Lemma incr_errors_ctl s0 st : ctl_eq s0 st -> ctl_eq s0 (incr_errors st).
+Proof. intros H. unfold incr_errors. destruct (i_test st) as [[[t p] f] e]. apply ctl_set_test. assumption. Qed.
+#[local] Hint Resolve incr_errors_ctl : ctl.
+
+Lemma cmd_test_pres : forall s0 st argv, ctl_eq s0 st -> pres_M s0 (cmd_test rec st argv).
+Proof.
+  intros s0 st argv H. unfold cmd_test, fancy_test, simple_test. pres_tac.
+Qed.
+
 End WithRecOk.
 
 (* ---------- Eval.v: words and scripts, for an arbitrary well-behaved executor ---------- *)
@@ -685,7 +770,7 @@ Proof.
               cmd_info_pres, cmd_join_pres, cmd_lappend_pres, cmd_lindex_pres, cmd_list_pres,
               cmd_llength_pres, cmd_proc_pres, cmd_puts_pres, cmd_rename_pres, cmd_return_pres,
               cmd_set_pres, cmd_string_pres, cmd_throw_pres, cmd_unset_pres, cmd_while_pres,
-              cmd_recorder_pres, cmd_ident_pres ].
+              cmd_recorder_pres, cmd_ident_pres, cmd_test_pres ].
 Qed.
 
 Theorem run_exec_ok fuel : exec_ok (run_exec U fuel).
